@@ -23,6 +23,10 @@ CHECKS = {
             "bounded-exhaustive execution of SLUFactor<double> over all small integer matrices x update type x Markowitz threshold x all column-replacement sequences up to a depth x every solve variant, exact rational reference; second pass under AddressSanitizer",
             "Every 2x2 and 3x3 matrix over {-1,0,1,2} is loaded (singular <=> det 0 exactly, checked with rational elimination), every solve variant (dense/sparse right and left solves, the 4update variants, the two- and three-right-hand-side variants) is compared with the exact solution on unit, dense and 2-sparse right-hand sides, under Forrest-Tomlin and product-form updates and several Markowitz thresholds; all column-replacement sequences of depth 1 (thorough: 2) over {-1,0,1}^3 on the {0,1,2} cube, driven like SPxBasisBase::change; structured matrices up to dimension 16 (thorough: 40, plus 4x4). The same enumerators run a second time on thinned families under AddressSanitizer, whose reports are verdicts.",
             "Trusted: exact Gaussian elimination over GMP rationals. Replacements that make the matrix exactly singular are skipped (the simplex never performs them); a bare change() without a prepared update vector and explicit-eta updates under Forrest-Tomlin are outside the protocol SoPlex itself uses and are not driven."),
+    "C11": ("exploration", "DESIGN.md section 3 C11",
+            "bounded-exhaustive execution of SLUFactorRational over all small matrices of a rational alphabet x every solve variant, and of SoPlex's rational basis-inverse queries on solver bases before/after cache-invalidating calls; mpq equality against exact elimination; whole run under AddressSanitizer",
+            "Part A: every 2x2 matrix over {0,1,-1/3,2^40+1,2^-40,1+2^-60} and every (quick: every third) 3x3 matrix over {0,1,-1/3,2^40+1} (thorough: also the 6-letter 3x3 matrices with <=5 nonzeros and 4x4 over {0,1,-1/3} with <=7 nonzeros) is loaded into SLUFactorRational; 'singular' must be reported exactly when the exact determinant is 0, and all nine solve variants (dense and sparse, right and left, the 2- and 3-right-hand-side forms) must return exactly the solution computed by the harness's own rational elimination on unit and dense right-hand sides. Part B: for every stride-th canonical tiny LP, after an exact solve and again after each of nine cache-invalidating modifications (and after the re-solve), getBasisIndRational / getBasisInverseRow/Col/TimesVecRational must equal the exact inverse of the basis matrix assembled from the harness's copy of the LP. The harness runs under ASan; every report is a verdict attributed to the solve variant.",
+            "Trusted: GMP mpq arithmetic and the harness's Gaussian elimination. Two genuine defects of the sparse rational solves are recorded in known_findings.json."),
 }
 
 NOT_YET = {}
